@@ -228,6 +228,15 @@ func rateLookup(c rateCase, path string) (ev rateEvent) {
 		inv := &bill.Invoice{Regime: tax.WithRegime(lcode(c.CC)), IssueDate: date, OperationDate: &od, Lines: []*bill.Line{line()}}
 		inv.SetTags(tags...)
 		err = inv.Calculate()
+	case "invoice-then-plain":
+		// the line under test is followed by a line that needs no look-up: what the first one gives (an error for a
+		// date before the first value in particular) is what the document gives
+		pp := num.MakePercentage(10, 2)
+		second := &bill.Line{Quantity: mustAmount("1"), Item: &org.Item{Name: "p", Price: &price},
+			Taxes: tax.Set{&tax.Combo{Category: cbc.Code(c.Cat), Percent: &pp}}}
+		inv := &bill.Invoice{Regime: tax.WithRegime(lcode(c.CC)), IssueDate: date, Lines: []*bill.Line{line(), second}}
+		inv.SetTags(tags...)
+		err = inv.Calculate()
 	case "invoice-value":
 		inv := &bill.Invoice{Regime: tax.WithRegime(lcode(c.CC)), IssueDate: other, ValueDate: &date, Lines: []*bill.Line{line()}}
 		inv.SetTags(tags...)
@@ -306,7 +315,7 @@ func ratesRun(seed int64, nrand int, in, out string) error {
 	if err != nil {
 		return err
 	}
-	paths := []string{"direct", "invoice-issue", "invoice-value", "order-value", "invoice-preset", "invoice-mixed", "invoice-customer", "delivery-value", "delivery-issue", "order-issue", "invoice-opdate"}
+	paths := []string{"direct", "invoice-issue", "invoice-value", "order-value", "invoice-preset", "invoice-mixed", "invoice-customer", "delivery-value", "delivery-issue", "order-issue", "invoice-opdate", "invoice-then-plain"}
 	emit := func(c rateCase) {
 		for _, p := range paths {
 			w.Emit(rateLookup(c, p))
